@@ -46,8 +46,11 @@ func raceBodiesMain(args []string) int {
 				}
 			}
 		}
-		for _, relaxed := range []bool{false, true} {
+		for _, relaxed := range []bool{false, true, false, true} {
 			a := schedArg{Scenario: "commit", Hist: 1, Relaxed: relaxed, Workers: 3, Variant: 2}
+			if it%2 == 1 {
+				a.Variant = 3
+			}
 			body, baseline, err := commitScenario(a)
 			if err != nil {
 				fmt.Println("HARNESS", err)
